@@ -109,6 +109,25 @@ pub fn run(tier: &str) -> i32 {
             }
         }
     }
+    // the same struct bound as `var<uniform>` where the uniform layout rules allow it (every program with a nested
+    // struct member; a spread of the others)
+    {
+        let n0 = all.len();
+        for i in 0..n0 {
+            let k = &all[i].key;
+            if !(k.starts_with("s1|") || k.starts_with("s2|") || k.starts_with("s3|")) {
+                continue;
+            }
+            let nested = k.contains("Inner") || k.contains("Deep") || k.contains("Pair");
+            if !(nested || (thorough && i % 3 == 0) || i % 23 == 0) || !uniform_legal(&all[i]) {
+                continue;
+            }
+            let mut q = all[i].clone();
+            q.src = q.src.replace("var<storage, read_write> data", "var<uniform> data").replace("var<storage, read> data", "var<uniform> data");
+            q.key = format!("uniform|{}", q.key);
+            all.push(q);
+        }
+    }
     // universe: every member type representable by glam
     let progs: Vec<StructProg> = all
         .into_iter()
@@ -128,7 +147,7 @@ pub fn run(tier: &str) -> i32 {
         let p = &progs[i];
         rep.states += 1;
         rep.transitions += p.env.get(&p.root).members.len() as u64;
-        let forced = p.key.starts_with("attr|") || p.key.starts_with("sibling-") || p.key.starts_with("named|") || (p.key.starts_with("alias-") && i % 5 == 0) || p.key.starts_with("rt") || (p.key.starts_with("io-host|") && i % 4 == 0) || p.key.contains("vec3<f32>|f32") || p.key.contains("mat3x3<f32>") && p.key.starts_with("s1");
+        let forced = p.key.starts_with("attr|") || p.key.starts_with("sibling-") || (p.key.starts_with("uniform|") && (p.key.contains("Pair") || i % 7 == 0)) || p.key.starts_with("named|") || (p.key.starts_with("alias-") && i % 5 == 0) || p.key.starts_with("rt") || (p.key.starts_with("io-host|") && i % 4 == 0) || p.key.contains("vec3<f32>|f32") || p.key.contains("mat3x3<f32>") && p.key.starts_with("s1");
         if !(i % stride == 0 || forced) {
             continue;
         }
